@@ -424,7 +424,10 @@ ValidObj(env, s, d, D) ==
                 /\ ~("RequiredUndeclaredIgnored" \in D /\ k \notin declared)
                 /\ ~(k \in PropNames(s) /\ Has(PropSchema(s, k), "default"))
                 /\ ~(Has(s, "defaulted") /\ k \in s.defaulted)}   \* default given by a sibling allOf branch
-      reqOK == B3(\A k \in req : ObjHas(d, k))
+      \* deviation "TagInvalidKeyUnbound", second face: the required check reads raw["<name>"] from an INTERPRETED string
+      \* literal, so a backslash in the name starts an escape: the key that is looked up is another one and a
+      \* required property with such a name is reported missing whatever the document holds
+      reqOK == IF "TagInvalidKeyUnbound" \in D /\ "e\\f" \in req THEN Rej ELSE B3(\A k \in req : ObjHas(d, k))
       \* a null for a property that declares a default counts as absent (C09); deviation
       \* "EnumNullDefault": an enum-typed field with a default is a value field whose UnmarshalJSON is
       \* called with null and rejects it (the zero value is not a listed value)
@@ -489,6 +492,7 @@ DevNeeds(x) ==
               "UntypedAddlNotCollected", "AddlMapDefaultDropped", "AddlNullPanics"} -> {"additionalProperties"}
     [] x \in {"Float64Bounds", "IntBoundTruncated"} -> {"minimum", "maximum", "exclusiveMinimum", "exclusiveMaximum"}
     [] x \in {"BareDefUnvalidated", "NullableDefUnvalidated", "SameNameDefsCollapse"} -> {"ref"}
+    [] x = "TagInvalidKeyUnbound" -> {"properties"}
     [] x \in {"EnumNullDefault", "DefaultOnNullableScalar", "DefaultOnFormat", "DefaultOnWrappedEnum", "DefaultOnNestedArray",
               "DefaultOnObjectWithOptionalFields"} -> {"default"}
     [] x = "AllOfFirstWins" -> {"allOf"}
@@ -521,6 +525,11 @@ IsStruct(s) == Main(s) = "object" /\ Props(s) # <<>>
 \* undeclared keys in the additional-properties map.  d is assumed valid under s.
 \* Go field names of the property names used by the unit families (the general rule is spec/Names.tla)
 GoFieldName(k) == CASE k = "my_field" -> "MyField" [] k = "p" -> "P" [] k = "x" -> "X" [] k = "k" -> "K" [] OTHER -> "?"
+\* deviation "TagInvalidKeyUnbound": encoding/json takes a tag name only if it consists of letters, digits and
+\* !#$%&()*+-./:;<=>?@[]^_{|}~ and space; for any other name (apostrophe, tab, comma, backslash, non-ASCII
+\* punctuation) the tag is ignored and the key is matched against the Go field name instead: the property is
+\* never filled.  The names the unit families use (MC_C14S, family tagchars):
+TagBadNames == {"don't", "tab\tkey", "i,j", "e\\f", "g\nh", "a\"b"}
 RECURSIVE Decoded(_, _, _, _, _)
 StripDefaults(s) ==
   IF Has(s, "properties")
@@ -544,7 +553,10 @@ Decoded(env, s, d, v, D) ==
        /\ \A k \in PropNames(s) :
              LET ps == PropSchema(s, k)
                  given == ObjHas(d, k) /\ ObjVal(d, k).t # "null"
-             IN IF given THEN
+             IN IF given /\ "TagInvalidKeyUnbound" \in D /\ k \in TagBadNames THEN
+                     \* the field keeps its zero value: nil for an optional (pointer) field, 0 for a required one
+                     ~ObjHas(v, k) \/ ObjVal(v, k).t = "null" \/ JEq(ObjVal(v, k), JNum(0))
+                ELSE IF given THEN
                      /\ ObjHas(v, k)
                      /\ \/ Decoded(env, ps, ObjVal(d, k), ObjVal(v, k), D)
                         \* deviation CaseInsensitiveKeyBinding: a key differing only by case overwrites the field
@@ -596,7 +608,7 @@ Reproduced(env, s, d, o, D) ==
   ELSE IF Has(s, "allOf") \/ Has(s, "anyOf") THEN TRUE
   ELSE IF IsStruct(s) THEN
        o.t = "obj" /\ \A k \in PropNames(s) \cap ObjKeys(d) :
-           NonEmpty(ObjVal(d, k)) =>
+           (NonEmpty(ObjVal(d, k)) /\ ~("TagInvalidKeyUnbound" \in D /\ k \in TagBadNames)) =>
              /\ ObjHas(o, k)
              /\ \/ Reproduced(env, PropSchema(s, k), ObjVal(d, k), ObjVal(o, k), D)
                 \/ /\ "CaseInsensitiveKeyBinding" \in D
